@@ -295,16 +295,16 @@ func (r *refCache) apply(ents []*entObj, o linOp) string {
 		r.cmds[o.a] = o.b
 		return "ok"
 	case "invalidate":
-		if _, ok := r.sess[o.a]; !ok {
-			return "ok false"
-		}
+		// the mappings that lead to the identifier go whether or not an entry is still filed under it
+		// (fix 93a7a4b); the result says whether there was an entry
+		_, had := r.sess[o.a]
 		delete(r.sess, o.a)
 		for ck, k := range r.cmds {
 			if k == o.a {
 				delete(r.cmds, ck)
 			}
 		}
-		return "ok true"
+		return fmt.Sprintf("ok %v", had)
 	case "gc":
 		n := 0
 		for k, u := range r.sess {
